@@ -743,3 +743,89 @@ def mon_c13(ctx, rec):
             st["cap_bound"] += 1
         st["cum"] += irrday
     return out
+
+
+# ---------------------------------------------------------------------------------------------
+# C19 shallow groundwater
+
+def gw_series_ref(spec, date):
+    """independent model of the daily water-table depth: hold constant from each observation, or interpolate linearly in time"""
+    g = spec["gw"]
+    obs = sorted((pd.Timestamp(d[:4] + "-" + d[4:6] + "-" + d[6:8]), float(v)) for d, v in zip(g["dates"], g["values"]))
+    if len(obs) == 1:
+        return obs[0][1]
+    if g.get("method", "Constant") == "Constant":
+        val = obs[0][1]
+        for d, v in obs:
+            if d <= date:
+                val = v
+        return val
+    # Variable
+    if date <= obs[0][0]:
+        return obs[0][1] if date == obs[0][0] else float("nan")
+    for (d0, v0), (d1, v1) in zip(obs, obs[1:]):
+        if d0 <= date <= d1:
+            span = (d1 - d0).days
+            return v0 + (v1 - v0) * ((date - d0).days / span) if span else v1
+    return obs[-1][1]
+
+
+def _xmax(fc):
+    if fc <= 0.1:
+        return 1.0
+    if fc >= 0.3:
+        return 2.0
+    pF = 2 + 0.3 * (fc - 0.1) / 0.2
+    return (10 ** pF) / 100.0
+
+
+def mon_c19(ctx, rec):
+    out = []
+    st = ctx.state.setdefault("c19", {"cr_days": 0, "table_in_soil_days": 0, "raised": 0})
+    if not ctx.has_gw:
+        if fx(rec, "CR") != 0 or fx(rec, "GwIn") != 0:
+            out.append(("C19:flux-without-table", f"day t={rec.t}: CR={fx(rec, 'CR')!r} GwIn={fx(rec, 'GwIn')!r} without a water table"))
+        return out
+    zgw = fx(rec, "z_gw")
+    ref = gw_series_ref(ctx.spec, rec.date)
+    if not (abs(zgw - ref) <= 1e-9 or (zgw != zgw and ref != ref)):
+        out.append(("C19:table-depth-series", f"day t={rec.t} {rec.date.date()}: z_gw={zgw!r}, configured observations ({ctx.spec['gw'].get('method')}) give {ref!r}"))
+        return out
+    cg = rec.proc_ret.get("check_groundwater_table")
+    if cg is not None:
+        adj = cg["th_fc_Adj"]
+        lo = adj < ctx.th_fc - 1e-12
+        hi = adj > ctx.th_s + 1e-12
+        if lo.any() or hi.any():
+            i = int(np.argmax(lo | hi))
+            out.append(("C19:adjusted-fc-out-of-range", f"day t={rec.t}: adjusted field capacity[{i}]={adj[i]!r} not in [fc={ctx.th_fc[i]}, sat={ctx.th_s[i]}] (table at {zgw})"))
+        for i in range(ctx.ncomp):
+            if zgw - ctx.zMid[i] >= _xmax(ctx.th_fc[i]) + 1e-9 and adj[i] != ctx.th_fc[i]:
+                out.append(("C19:adjusted-fc-far-table", f"day t={rec.t}: compartment {i} (mid {ctx.zMid[i]}) is {zgw - ctx.zMid[i]:.3f} m above the table but its adjusted field capacity {adj[i]!r} != fc {ctx.th_fc[i]!r}"))
+                break
+    below = ctx.zMid >= zgw
+    if below.any():
+        st["table_in_soil_days"] += 1
+        bad = below & (rec.th1 != ctx.th_s)
+        if bad.any():
+            i = int(np.argmax(bad))
+            out.append(("C19:below-table-not-saturated", f"day t={rec.t}: compartment {i} (mid-depth {ctx.zMid[i]} m) lies below the table at {zgw} m but ends the day at th={rec.th1[i]!r}, saturation {ctx.th_s[i]!r}"))
+    # capillary rise: compartments it raised must not exceed the adjusted field capacity (+ the 1e-4 rounding quantum)
+    led = rec.ledger
+    if led and cg is not None:
+        for j in range(len(led) - 1):
+            if led[j][0] == "capillary_rise":
+                a, b = led[j][1], led[j + 1][1]
+                raised = b > a
+                if raised.any():
+                    st["raised"] += int(raised.sum())
+                    over = raised & (b > cg["th_fc_Adj"] + 1e-4 + 1e-12)
+                    if over.any():
+                        i = int(np.argmax(over))
+                        out.append(("C19:capillary-rise-above-adjusted-fc", f"day t={rec.t}: capillary rise lifted compartment {i} to {b[i]!r}, adjusted field capacity {cg['th_fc_Adj'][i]!r}"))
+                changed_nonraise = (b < a)
+                if changed_nonraise.any():
+                    out.append(("C19:capillary-rise-removes-water", f"day t={rec.t}: capillary rise lowered a compartment's water content"))
+    if fx(rec, "CR") > 0:
+        st["cr_days"] += 1
+    return out
